@@ -42,6 +42,13 @@ func zzBuildDelScenario(ctx context.Context) *zzDelScenario {
 		zz.Assert(sc.s.Append(ctx, sc.chain[sc.split:sc.K]...) == nil, "Append ok")
 		zz.Assert(sc.s.Sync(ctx) == nil, "Sync ok")
 	}
+	if sc.split > 0 && zz.Bool("reappend") {
+		// a header that is already on disk is appended once more: it now also sits in the write batch
+		j := zz.Choice("reappend.idx", sc.split)
+		zz.Assert(sc.s.Append(ctx, sc.chain[j]) == nil, "Append ok")
+		zz.Assert(sc.s.Sync(ctx) == nil, "Sync ok")
+		zz.Reach("reappended")
+	}
 	sc.tailH, sc.headH = sc.chain[0].H, sc.chain[sc.K-1].H
 	// (from,to): every pair around the chain ends: tail-1 .. head+2
 	sc.from = sc.tailH - 1 + uint64(zz.Choice("from", sc.K+3))
